@@ -136,3 +136,7 @@ func vAPIWalk(guards bool) {
 // lock order association-lock -> timer-mutex used by every handler cannot be inverted
 // (same obligation as vh_C19_L3_retry_law, which checks it inside both callbacks).
 func vh_C20_L3_timer_callbacks_unlocked() { vh_C19_L3_retry_law() }
+
+// C20.L4: events that end a stream wake every goroutine blocked on it (teardown = C09.L7, peer reset = C14.L2).
+func vh_C20_L4_teardown_wakes_every_reader() { vh_C09_L7_every_blocked_reader_is_woken() }
+func vh_C20_L4_reset_wakes_every_reader()    { vh_C14_L2_deferred_reset() }
